@@ -150,7 +150,8 @@ def judge (op : List String) (go : String) : Verdict :=
       let fuel := fuelFor ta tb
       let mIs := isSub rules fuel ta tb
       let mChk := check rules fuel ta tb
-      let mEq := ta == tb
+      let mEq := semaEq ta tb     -- `sema.Type.Equal`
+      let mSeq := ta == tb        -- `StaticType.Equal`
       let mSt := Struct.sub ta tb
       let tags := ["sub", "sub-" ++ headTag ta, "super-" ++ headTag tb, "r-" ++ bit mIs,
                    (if ta.wf && tb.wf then "wf" else "not-wf")] ++
@@ -166,10 +167,13 @@ def judge (op : List String) (go : String) : Verdict :=
       else if eq == "0" && chk == "001" && optNeverVsAnyResource ta tb then
         .violation "runtime-optional-never-anyresource" "CheckSubTypeWithoutEquality = _gen (sema) = _gen (interpreter)" tags
       else if eq == "0" && !allSame chk then .violation "handwritten-generated-disagree" "CheckSubTypeWithoutEquality = _gen (sema) = _gen (interpreter)" tags
+      else if eq == "1" && seq == "0" && mEq && !mSeq then
+        -- intersections with the same effective set but different listed members: equal for the checker, different at run time
+        .violation "static-equal-intersection-effective-set" "sema Equal = static Equal on corresponding types" tags
       else if eq != seq || rt != "1" then .violation "static-conversion" "sema -> static -> sema is the identity and preserves equality" tags
       else
-        let m := "eq=" ++ bit mEq ++ " is=" ++ bit mIs ++ " chk=" ++ bit mChk ++ " st=" ++ bit mSt
-        if eq == bit mEq && is.take 1 == bit mIs && (eq == "1" || chk.take 1 == bit mChk) && is.take 1 == bit mSt then .ok tags
+        let m := "eq=" ++ bit mEq ++ " seq=" ++ bit mSeq ++ " is=" ++ bit mIs ++ " chk=" ++ bit mChk ++ " st=" ++ bit mSt
+        if eq == bit mEq && seq == bit mSeq && is.take 1 == bit mIs && (eq == "1" || chk.take 1 == bit mChk) && is.take 1 == bit mSt then .ok tags
         else .modelDiff m tags
     | _, _ => .skip "bad-type"
   | ["types", "refl", a] =>
